@@ -65,6 +65,10 @@ def gen_plan(rng, index, tier):
             bp["cells"] = [[0, 0, "IC"]] + ([[1, 0, "OC"], [0, 1, "OC"]] if rings > 1 else [])
         if rng.random() < 0.3:
             bp["heights"] = [rng.choice([10.0, 25.0, 33.3]) for _ in range(4)]
+        if rng.random() < 0.35:
+            # fuel blocks with a pin lattice: components carry multi-index locations
+            bp["pins"] = True
+            bp["pinrings"] = rng.choice([2, 3])
         cfg["blueprint"] = bp
         cfg["fuelHandler"] = True
         if bp["plate"]:
@@ -82,7 +86,7 @@ def gen_plan(rng, index, tier):
         a = rng.choice(actors)
         pt = rng.choice(pts)
         uid += 1
-        op = rng.choice(["setp", "setp", "setp", "ndens", "temp", "dim", "height", "rotate", "std"])
+        op = rng.choice(["setp", "setp", "setp", "ndens", "temp", "dim", "height", "rotate", "std", "convert"])
         kw = {"idx": rng.randrange(1000), "u": uid}
         if op == "setp":
             kw["level"] = rng.choice(["reactor", "core", "assembly", "block", "component"])
@@ -122,7 +126,7 @@ def simplify(plan):
     st = cfg["settings"]
     if cfg.get("reactor") == "gen":
         bp = cfg["blueprint"]
-        for key, simple in (("plenum", False), ("plate", False), ("sfp", False), ("nfuel", 1), ("rings", 1), ("symmetry", "full"), ("geom", "hex")):
+        for key, simple in (("pins", False), ("plenum", False), ("plate", False), ("sfp", False), ("nfuel", 1), ("rings", 1), ("symmetry", "full"), ("geom", "hex")):
             if bp.get(key) != simple and not (key == "rings" and bp.get("cells")):
                 p = copy.deepcopy(plan)
                 p["config"]["blueprint"][key] = simple
@@ -294,7 +298,27 @@ def _wrap(fn):
     return run
 
 
-OPS = {"setp": op_setp, "ndens": op_ndens, "temp": op_temp, "dim": op_dim, "height": op_height, "rotate": op_rotate, "std": op_std}
+def op_convert(d, st, actor):
+    """Geometry conversion as a state-changing step: third core -> full core, or back."""
+    from armi.reactor.converters import geometryConverters as gc
+
+    r = actor.o.r
+    ch = getattr(d, "changer", None)
+    if ch is not None:
+        ch.restorePreviousGeometry(r)
+        d.changer = None
+        d.probes["geometry_restored"] += 1
+    elif not r.core.isFullCore:
+        ch = gc.ThirdCoreHexToFullCoreChanger(actor.o.cs)
+        ch.convert(r)
+        d.changer = ch
+        d.probes["geometry_converted"] += 1
+    else:
+        return
+    d.dirty = True
+
+
+OPS = {"convert": op_convert, "setp": op_setp, "ndens": op_ndens, "temp": op_temp, "dim": op_dim, "height": op_height, "rotate": op_rotate, "std": op_std}
 
 
 def refresh_derived(d, actor):
@@ -389,6 +413,8 @@ def execute(plan):
         probes["snapshots_compared"] += compared
         if d.nswaps:
             probes["compared_after_swap"] += 1
+        if any(v.get("loc", [""])[0] == "multi" for v in writes[order[0]]["digest"]["objs"].values()):
+            probes["multi_index_locations_compared"] += 1
         for k in ("rotate", "height", "temp", "ndens", "dim"):
             if d.fired.get(k):
                 probes["state_" + k] += 1
